@@ -31,19 +31,25 @@ def load_kf():
 
 
 def relevant(fl, pid, unit_serves):
-    tags = set()
-    any_clause = False
-    for cid, ctags, _ in fl.clauses:
-        any_clause = True
-        tags.update(ctags)
-    if pid in tags:
-        return True
-    if tags:
-        return False
-    if not any_clause:
-        # bare safety obligation at a real source line (unwrap / index / arithmetic): panic freedom
+    """A failed obligation counts against property pid if a clause it hit names pid on its own line (`//@ id [..]`);
+    a failure that hit only clauses without an own marker (they inherit the annotation's coarse default tags) is a
+    broken proof step and counts against every property the unit serves; a bare safety obligation at a real source
+    line (unwrap / index / arithmetic) is panic freedom (C08)."""
+    if not fl.clauses:
         return pid == "C08"
-    # only untagged helper clauses were hit: a proof step of this unit broke; every property the unit serves is affected
+    own = [c for c in fl.clauses if c[3]]
+    if own:
+        tags = set()
+        for c in own:
+            tags.update(c[1])
+        if pid in tags:
+            return True
+        # an own-marked clause with an empty tag list (e.g. the canary) never counts
+        if all(len(c[1]) == 0 for c in own):
+            return False
+        # the failure may also have hit unmarked lines of other annotations: those widen it
+        if len(own) == len(fl.clauses):
+            return False
     return pid in unit_serves
 
 
@@ -154,10 +160,19 @@ def main():
                   wall_s=round(r.wall_s, 2), smt_s=round(r.smt_s, 2))
         unit_summaries[unit.NAME] = us
         smt_s += r.smt_s
+        if pid == "C07" and r.gen is not None and r.gen.clock_uses:
+            for cu in r.gen.clock_uses:
+                violations.append((unit.NAME, dict(obligation="C07 side condition (syntactic): a clock reading is used outside the deadline test `elapsed > timeout`: %s:%d `%s`" % (cu["file"], cu["line"], cu["text"][:160]), clock_use=cu)))
         if r.status == "undecided":
             undecided.append("%s: %s" % (unit.NAME, r.reason))
             continue
         g = r.gen
+        lost_here = [l for l in g.lost if pid in l["tags"]]
+        if g.lost:
+            us["lost_annotations"] = g.lost
+        if lost_here:
+            undecided.append("%s: lost anchor of annotation(s) this property depends on: %s" % (unit.NAME, "; ".join(l["id"] + " (" + l["reason"][:120] + ")" for l in lost_here)))
+            continue
         for k, v in g.rule_hits.items():
             rule_hits[k] = rule_hits.get(k, 0) + v
         us["dropped"] = g.dropped
@@ -242,7 +257,7 @@ def main():
         found = False
         try:
             import replay
-            found = replay.attach_scenario(pid, uname, fl, rec)
+            found = replay.attach_scenario(pid, uname, fl, rec, seed)
         except Exception as e:   # replay is best effort; the violation is reported regardless
             rec["replay_error"] = repr(e)
         json.dump(rec, open(rp, "w"), indent=1)
@@ -250,7 +265,21 @@ def main():
         lines.append("VIOLATION property=%s replay=%s%s" % (pid, rp, "" if found else " no-failing-input-found"))
         exit_code = 1
     if undecided and exit_code == 0:
-        exit_code = 2
+        # undecided obligations (lost anchor, unsupported construct, resource limit): look for a concrete failing input.
+        # Only a reproduced violation of the property on the real code turns "undecided" into an alarm.
+        try:
+            import replay
+            hits, note = replay.run_scenarios(pid, seed)
+        except Exception as e:
+            hits, note = [], repr(e)
+        if hits:
+            rp = os.path.join(VERIF, "replays", "%s-%s-undecided.json" % (pid, tier))
+            json.dump(dict(property=pid, obligation="undecided: " + " || ".join(undecided)[:1500], failing_inputs=hits[:5], seed=seed, replay_note=note), open(rp, "w"), indent=1)
+            lines.append("VIOLATION property=%s replay=%s" % (pid, rp))
+            exit_code = 1
+            violations.append(("replay", dict(obligation="scenario family exhibits a violation", failing_inputs=hits[:3])))
+        else:
+            exit_code = 2
     ev = dict(
         property_id=pid, tier=tier, seed=seed, level=P["level"],
         coverage=dict(
@@ -274,7 +303,7 @@ def main():
         ),
         assumptions=P.get("assumptions", []),
         wall_s=round(wall, 2),
-        violations=len(violations),
+        violations=len([v for v in violations]),
     )
     json.dump(ev, open(os.path.join(VERIF, "evidence", pid + ".json"), "w"), indent=1)
     for ln in lines:
